@@ -26,7 +26,9 @@ import (
 	"net/http/httptest"
 	"net/url"
 	"os"
+	"path"
 	"strings"
+	"testing/fstest"
 	"time"
 
 	"github.com/zeromicro/go-zero/core/logx"
@@ -389,6 +391,28 @@ func e2eEscaped(c *kit.Case) {
 	if naInst {
 		opts = append(opts, rest.WithNotAllowedHandler(echoHandler("notallowed", -2, 405)))
 	}
+	// half of the servers also serve static files below a mount point under which API routes live
+	// too (rest.WithFileServer): the file server only takes GET requests for files that exist - no
+	// generated request names the one file there is - so every request still belongs to the router
+	// and is judged by the same reference (seeded change C09-s11 strips the mount point before the
+	// file-exists test and hands the router the stripped path).
+	fsPrefix := ""
+	var staticFS http.FileSystem
+	if r.Bool() {
+		cands := []string{"/static"}
+		for _, x := range m.table {
+			segs := strings.Split(path.Clean(x.Pattern), "/")
+			if len(segs) > 2 && segs[1] != "" && !strings.HasPrefix(segs[1], ":") {
+				cands = append(cands, "/"+segs[1])
+			}
+		}
+		fsPrefix = kit.Choose(r, cands)
+		if r.Chance(0.3) {
+			fsPrefix += "/"
+		}
+		staticFS = http.FS(fstest.MapFS{"zz-verif-static-file.txt": &fstest.MapFile{Data: []byte("VERIF-STATIC")}})
+		opts = append(opts, rest.WithFileServer(fsPrefix, staticFS))
+	}
 	srv, err := rest.NewServer(baseConf("verifc09x", port), opts...)
 	if err != nil {
 		c.Inconclusive("rest.NewServer: " + err.Error())
@@ -401,7 +425,7 @@ func e2eEscaped(c *kit.Case) {
 	}
 	declareDecorated(srv, groups)
 	regs := describeGroups(groups)
-	wit := map[string]any{"declarations": regs, "global_middleware": globals}
+	wit := map[string]any{"declarations": regs, "global_middleware": globals, "file_server_mounted_at": fsPrefix}
 
 	up, hs, out := startLive(srv, port, nonce, pg.Routes[0].Gid)
 	if !up {
@@ -456,6 +480,18 @@ func e2eEscaped(c *kit.Case) {
 			}
 			decoded = es[0].Path
 		}
+		if staticFS != nil && meth == "GET" {
+			// a GET below the mount point whose remainder exists in the file system (the file, or the
+			// root directory for "<mount>//") belongs to the file server, not to the router
+			mount := strings.TrimSuffix(fsPrefix, "/") + "/"
+			if strings.HasPrefix(req.URL.Path, mount) {
+				if f, err := staticFS.Open(req.URL.Path[len(mount):]); err == nil {
+					f.Close()
+					c.Obs("escaped_requests_taken_by_the_file_server", 1)
+					continue
+				}
+			}
+		}
 		w2 := map[string]any{"target": target}
 		for k, v := range wit {
 			w2[k] = v
@@ -467,6 +503,24 @@ func e2eEscaped(c *kit.Case) {
 		done++
 	}
 	c.Evals(int64(done))
+	if fsPrefix != "" {
+		c.Obs("escaped_servers_with_file_server_mount", 1)
+		below := 0
+		for _, x := range m.table {
+			if strings.HasPrefix(path.Clean(x.Pattern)+"/", strings.TrimSuffix(fsPrefix, "/")+"/") {
+				below++
+			}
+		}
+		c.Obs("escaped_routes_below_the_file_server_mount", int64(below))
+		// the one file that exists is served (observation only: the statement is about routes)
+		if resp, err := client.Get(base + strings.TrimSuffix(fsPrefix, "/") + "/zz-verif-static-file.txt"); err == nil {
+			b, _ := io.ReadAll(resp.Body)
+			resp.Body.Close()
+			if resp.StatusCode == 200 && string(b) == "VERIF-STATIC" {
+				c.Obs("escaped_static_file_served", 1)
+			}
+		}
+	}
 	c.Obs("escaped_servers", 1)
 	c.Sig(classes["405"] > 0 && classes["404"] > 0 && classes["dispatch-vars"] > 0, "e2e-escaped", nfInst, naInst, globals, strings.Join(regs, ";"))
 	if c.Index < 2 {
